@@ -1651,6 +1651,43 @@ func runCorpus(r *hx.Run) {
 	}
 }
 
+// the scenario families, by the first word of their description
+var families = map[string]func(*hx.Rng, *hx.Run) result{
+	"stress": runStress, "snapshot": runSnapshot, "flushclose": runFlushClose, "readers": runReaders, "torn": runTorn,
+	"batchflip": runBatchFlip, "large": runLarge, "commitclose": runCommitClose, "freshview": runFreshView, "cbpark": runCallbackPark,
+}
+
+// replayRerun: the replay of a hang finding of an in-process scenario (`x rerun <family> <sub-seed>`): the same instance (same
+// store, same plans - a function of the sub-seed) is run again, up to 200 times or until it hangs or yields a rejected history.
+func replayRerun(r *hx.Run, lines []string) bool {
+	for _, l := range lines {
+		f := strings.Fields(l)
+		if len(f) != 4 || f[0] != "x" || f[1] != "rerun" || families[f[2]] == nil {
+			continue
+		}
+		sub, err := strconv.ParseUint(f[3], 10, 64)
+		if err != nil {
+			continue
+		}
+		var res result
+		for attempt := 0; attempt < 200; attempt++ {
+			res = families[f[2]](hx.NewRng(sub), r)
+			res.desc += fmt.Sprintf(" rerun-attempt=%d", attempt+1)
+			if res.timedOut {
+				break
+			}
+			if ok, _, _ := linearizable(sortedOps(res.ops), false); !ok {
+				break
+			}
+		}
+		emit(r, sub, res)
+
+		return true
+	}
+
+	return false
+}
+
 var shrunk int // rejected histories minimised so far in this run
 
 // shrinkReads removes read-only operations (Get / Has / Iterate / IterateKeys / flag calls, and data calls that answered
@@ -1843,6 +1880,12 @@ func main() {
 
 			return
 		}
+		if len(plan) > 0 && replayRerun(r, plan) {
+			// the replay of a hang of an in-process scenario: the same instance again, until it hangs again
+			r.Finish()
+
+			return
+		}
 		if len(plan) > 0 && replayStress(r, plan) {
 			// the replay of a hang of the stress scenario: the same plans by real goroutines, until it hangs again
 			r.Finish()
@@ -1921,26 +1964,30 @@ func main() {
 		rng, sub := r.Rng.Fork()
 		var res result
 		t0 := time.Now()
+		family := "stress"
 		if i%8 == 7 {
-			res = runSnapshot(rng, r)
+			family = "snapshot"
 		} else if i%50 == 3 {
-			res = runFlushClose(rng, r)
+			family = "flushclose"
 		} else if i%40 == 11 {
-			res = runReaders(rng, r)
+			family = "readers"
 		} else if i%80 == 21 {
-			res = runTorn(rng, r)
+			family = "torn"
 		} else if i%40 == 29 {
-			res = runBatchFlip(rng, r)
+			family = "batchflip"
 		} else if i%largeEvery == 13 {
-			res = runLarge(rng, r)
+			family = "large"
 		} else if i%50 == 33 {
-			res = runCommitClose(rng, r)
+			family = "commitclose"
 		} else if i%freshEvery == 43 {
-			res = runFreshView(rng, r)
+			family = "freshview"
 		} else if i%25 == 19 {
-			res = runCallbackPark(rng, r)
-		} else {
-			res = runStress(rng, r)
+			family = "cbpark"
+		}
+		res = families[family](rng, r)
+		if res.timedOut {
+			// the instance is a function of its sub-seed: `--replay` runs it again (the schedule is what varies)
+			res.plan = append([]string{fmt.Sprintf("x rerun %s %d", family, sub)}, res.plan...)
 		}
 		if res.timedOut {
 			hangs++ // the hung goroutines are still there: after the second hang nothing that follows would be reliable
